@@ -112,7 +112,7 @@ impl Sub for Rewriter {
 /// Exhaustive sub-tier: all rule lists of ≤3 rules × pattern length ≤2 over {*, a, b, (a|b)}
 /// against all feature lists of length ≤2 over {a,b,c}.
 fn exhaustive(opts: &Opts, rep: &mut Report) {
-    let syms = ["*", "a", "b", "(a|b)"];
+    let syms = ["*", "a", "b", "(a|b)", "(a|c)"];
     let mut patterns: Vec<Vec<String>> = vec![];
     for a in syms {
         patterns.push(vec![a.to_string()]);
@@ -128,7 +128,7 @@ fn exhaustive(opts: &Opts, rep: &mut Report) {
             feats.push(vec![a.to_string(), b.to_string()]);
         }
     }
-    let np = patterns.len(); // 20
+    let np = patterns.len(); // 30
     let t0 = std::time::Instant::now();
     let mut lists = 0u64;
     let mut evals = 0u64;
@@ -191,7 +191,7 @@ fn exhaustive(opts: &Opts, rep: &mut Report) {
     rep.exhaustive = Some(true);
     rep.subs.push(serde_json::json!({"sub": "exhaustive_small_rules", "rule_lists": lists, "evaluations": evals, "several_rules_match": nontrivial,
         "exhaustive": true, "wall_s": t0.elapsed().as_secs_f64()}));
-    rep.rules.push("[exhaustive_small_rules] ALL ordered rule lists of 1-3 rules whose patterns have 1-2 positions over {*, a, b, (a|b)} (20+400+8000 lists, outputs identify the rule and echo $1,$2) × ALL feature lists of length 0-2 over {a,b,c} \
+    rep.rules.push("[exhaustive_small_rules] ALL ordered rule lists of 1-3 rules whose patterns have 1-2 positions over {*, a, b, (a|b), (a|c)} (30+900+27000 lists, outputs identify the rule and echo $1,$2) × ALL feature lists of length 0-2 over {a,b,c} \
         (13 lists): exhaustive for that sub-space; non-trivial = ≥2 rules match".into());
 }
 
@@ -203,7 +203,7 @@ pub fn run_c17(opts: &Opts) -> Report {
     ];
     let a = Rewriter;
     crate::props::committed_replays(&a, opts, &mut rep);
-    run_sub(&a, opts, opts.tier.pick(20_000, 400_000), &mut rep);
+    run_sub(&a, opts, opts.tier.pick(40_000, 600_000), &mut rep);
     exhaustive(opts, &mut rep);
     rep
 }
@@ -481,7 +481,7 @@ pub fn run_c18(opts: &Opts) -> Report {
     crate::props::committed_replays(&a, opts, &mut rep);
     crate::props::committed_replays(&b, opts, &mut rep);
     run_sub(&a, opts, opts.tier.pick(8000, 150_000), &mut rep);
-    run_sub(&b, opts, opts.tier.pick(1200, 30_000), &mut rep);
+    run_sub(&b, opts, opts.tier.pick(3000, 50_000), &mut rep);
     rep
 }
 
